@@ -178,6 +178,18 @@ func judge(ex *execution) Verdicts {
 	}
 	gotNil := ex.resp == nil
 
+	if e.SpellingMix {
+		// only C03's differential part (combined vs sequential through the same generator) is
+		// independent of whether "/m2" and "/m2/" are one destination or two
+		v.C01.Skip, v.C02.Skip, v.C04.Skip, v.C05.Skip = "spelling_mix", "spelling_mix", "spelling_mix", "spelling_mix"
+		if c.Kind == "create" && ex.err == nil && e.Hazard == "" {
+			judgeC03(ex, e, &v.C03)
+		} else {
+			v.C03.Skip = "spelling_mix"
+		}
+		return v
+	}
+
 	// ---------------- C01 ----------------
 	switch {
 	case e.Hazard != "":
@@ -413,6 +425,11 @@ func judgeC03(ex *execution, e *Expect, out *Verdict) {
 		out.Fail = "spec from the combined adjustment differs from applying each plugin's adjustment in turn: " + d
 		return
 	}
+	if e.SpellingMix {
+		out.Classes = []string{"spelling_mix_differential_only"}
+		out.NonTrivial = e.Contrib >= 2
+		return
+	}
 	// value-level expectations from the model
 	want := e.Final.clone()
 	// the generator only applies some resource fields; a memory limit also sets swap
@@ -422,6 +439,12 @@ func judgeC03(ex *execution, e *Expect, out *Verdict) {
 		want.Res["memSwap"] = o
 	} else {
 		delete(want.Res, "memSwap")
+	}
+	// an empty class name means "clear": the generator removes the block I/O / RDT section
+	for _, f := range []string{"blockio", "rdt"} {
+		if v, ok := want.Res[f]; ok && v == "" {
+			delete(want.Res, f)
+		}
 	}
 	if d := diffViews(lv, want, generatorApplies); d != "" {
 		out.Fail = "spec from the combined adjustment does not carry the values of the final owners: " + d
